@@ -628,6 +628,26 @@ def judge(case, ctx, trace, out, done, blocked, tcalls, objects,
             raise Violation("driver-used-without-options", repr(trace[:8]))
         ctx.label("no-option-survives")
         return
+    # every option that survived its on-startup gets its turn in each round
+    # of the main loop: when nothing ever connected (no inner loop consumed
+    # terminate() calls), no device fault was scripted and terminate() was
+    # asked at least twice, one complete round has been made
+    if ret is None and tcalls["n"] >= 2 and not rounds and \
+            not case["env"].get("fault") and \
+            not any(t[2] == "connect" for t in cbs) and "exc" not in out:
+        names = [t[1] for t in trace if t[0] == "drv"]
+        family = {"rdwr": lambda n: n.startswith("sense_t"),
+                  "card": lambda n: n.startswith("listen_t"),
+                  "llcp": lambda n: n in ("listen_dep", "sense_dep",
+                                          "sense_tta", "sense_ttf")}
+        for kind in alive:
+            if kind == "rdwr" and case["rdwr"].get("targets") == []:
+                continue
+            if not any(family[kind](n) for n in names):
+                raise Violation("option-never-tried", "%s survived its "
+                                "on-startup but the device was never asked "
+                                "for it in a complete round (driver calls "
+                                "%r)" % (kind, sorted(set(names))))
     # 2. per kind callback order and release accounting
     released_false = False
     for kind in kinds:
